@@ -17,8 +17,8 @@ import (
 	"github.com/sirupsen/logrus"
 
 	"github.com/taskctl/taskctl/internal/vh/common"
-	"github.com/taskctl/taskctl/internal/vrt"
-	"github.com/taskctl/taskctl/internal/vrt/vsync"
+	"github.com/taskctl/taskctl/vrt"
+	"github.com/taskctl/taskctl/vrt/vsync"
 	"github.com/taskctl/taskctl/pkg/output"
 	"github.com/taskctl/taskctl/pkg/runner"
 	"github.com/taskctl/taskctl/pkg/scheduler"
@@ -352,9 +352,24 @@ func main() {
 		var cf struct {
 			Conc    *concCase  `json:"conc"`
 			Watch   *watchCase `json:"watch"`
+			Cockpit *cockpitCase `json:"cockpit"`
 			Choices []int      `json:"choices"`
 		}
 		common.ReadReplay(&cf)
+		if cf.Cockpit != nil {
+			vrt.Debug = true
+			x := vrt.Replay(cf.Choices, nil, cockpitBody(cf.Cockpit))
+			fmt.Printf("outcome: %s %s\nblocked: %v\n", x.Outcome, x.PanicVal, x.Blocked)
+			for _, e := range x.Events {
+				fmt.Println("  ", e)
+			}
+			if k, d := judgeCockpit(cf.Cockpit, x); k != "" {
+				fmt.Println("oracle:", k, d)
+				fmt.Printf("VIOLATION property=C19 replay=%s\n", *common.Replay)
+				os.Exit(1)
+			}
+			return
+		}
 		if cf.Watch != nil {
 			theSeam.park = false
 			x := vrt.Replay(cf.Choices, nil, watchBody(cf.Watch))
